@@ -925,6 +925,47 @@ def rule_r18(prog, res):
               'Python share (C06-R15)', 'C06', c06.rule_r15, prog, Result)
 
 
+# ------------------------------------------------------------------ R19
+def rule_r19(prog, res):
+    res.rule('R19', 'a protocol that overrides the reader of a date/time '
+             'type with the ISO reader overrides its writer too (and the '
+             'other way round)')
+    n = 0
+    for cfq in ('spyne.protocol.soap.soap11:Soap11',):
+        c = prog.cls(cfq)
+        f = c.methods.get('__init__')
+        got = {'_to_unicode_handlers': set(), '_from_unicode_handlers': set()}
+        for a in walk_no_defs(f.node):
+            if isinstance(a, ast.Assign):
+                for t in a.targets:
+                    if isinstance(t, ast.Subscript) and isinstance(
+                            t.value, ast.Attribute) and \
+                            t.value.attr in got and unparse(t.slice) in (
+                                'Date', 'Time', 'DateTime'):
+                        got[t.value.attr].add(unparse(t.slice))
+        n += len(got['_to_unicode_handlers'] | got['_from_unicode_handlers'])
+        # Time has no format-dependent reader: only Date/DateTime matter there
+        rd = got['_from_unicode_handlers']
+        wr = got['_to_unicode_handlers']
+        missing_w = sorted(rd - wr)
+        missing_r = sorted((wr - rd) - {'Time'})
+        ok = not missing_w and not missing_r
+        res.ob('R19', f.where, '%s overrides writers %s and readers %s' % (
+            c.name, sorted(wr), sorted(rd)), 'ok' if ok else 'VIOLATED')
+        for t in missing_w:
+            res.finding('R19', '%s.__init__|writer-not-overridden|%s' % (
+                c.name, t), f.where, '%s reads %s with the ISO reader but '
+                'writes it with the default writer, which honours the '
+                'type\'s custom format: %s(date_format="%%d/%%m/%%Y") is '
+                'sent as 31/12/2020 and neither the schema nor its own '
+                'reader accept it' % (c.name, t, t))
+        for t in missing_r:
+            res.finding('R19', '%s.__init__|reader-not-overridden|%s' % (
+                c.name, t), f.where, '%s writes %s in ISO form but reads it '
+                'with the format-dependent reader' % (c.name, t))
+    res.floor('R19', 'date/time handler overrides', n, 3)
+
+
 def run(prog, res, tier):
     res.run_rule(rule_r1, prog, res)
     res.run_rule(rule_r2_r7, prog, res, tier)
@@ -943,6 +984,7 @@ def run(prog, res, tier):
     res.run_rule(rule_r16, prog, res)
     res.run_rule(rule_r17, prog, res)
     res.run_rule(rule_r18, prog, res)
+    res.run_rule(rule_r19, prog, res)
 
 
 _I = 'spyne/protocol/_inbase.py'
@@ -951,6 +993,12 @@ _B = 'spyne/model/binary.py'
 _S = 'spyne/protocol/soap/soap11.py'
 
 MUTANTS = [
+    Mutant('soap-date-writer-not-overridden', 'R19', 'fire',
+           'spyne/protocol/soap/soap11.py',
+           in_func('Soap11.__init__',
+                   "        self._to_unicode_handlers[Date] = lambda cls, "
+                   "value: value.isoformat()\n", ""),
+           'writer-not-overridden'),
     Mutant('duration-fraction-read-before-negation', 'R17', 'fire',
            'spyne/protocol/_outbase.py',
            in_func('OutProtocolBase.duration_to_unicode',
